@@ -16,7 +16,7 @@ func init() {
 		rule{name: "S-stackfx", run: ruleSStackFx},
 		rule{name: "T-truth", run: ruleTTruth},
 		rule{name: "T-arith", run: ruleTArith},
-		rule{name: "T-hash", run: ruleTHash}, rule{name: "T-shift", run: ruleTShift}, rule{name: "T-nop", run: ruleTNop}, rule{name: "T-min", run: ruleTMin},
+		rule{name: "T-hash", run: ruleTHash}, rule{name: "T-shift", run: ruleTShift}, rule{name: "T-nop", run: ruleTNop}, rule{name: "T-min", run: ruleTMin}, rule{name: "T-pushonly", run: ruleTPushOnly},
 	)
 	register("C18",
 		"Lock discipline of the documented thread-safe types decided for every schedule by a lockset analysis (L-fee: every read/write of FeeQuotes.quotes, FeeQuote.fees, FeeQuote.expiryTime happens with the struct's RWMutex held in a sufficient mode; L-pair: acquire/release kinds pair on every path; L-order: acquisition order acyclic; L-escape: no guarded map handed out by reference). Verdict equality of concurrent vs sequential Execute is decided only through its structural cause: O-glob shows no function reachable from Engine.Execute writes package-level state.",
@@ -47,7 +47,7 @@ func init() {
 	register("C09", "P-dec", nil, rule{name: "P-dec", run: rulePDec}, rule{name: "ACC", run: ruleACC}, rule{name: "L-fresh", run: ruleLFresh})
 	register("C14", "P-insp", nil, rule{name: "P-insp", run: rulePInsp}, rule{name: "T-tmpl", run: ruleTTmplScripts})
 	register("C16", "P-json", nil, rule{name: "P-json", run: rulePJSON}, rule{name: "FLOAT", run: ruleFloat}, rule{name: "T-dto", run: ruleTDto}, rule{name: "T-dto", run: ruleTDtoOnce}, rule{name: "L-fresh", run: ruleLFresh})
-	register("C13", "T-push T-nm", nil, rule{name: "P-codec", run: rulePCodec}, rule{name: "T-push", run: ruleTPush}, rule{name: "T-nm", run: ruleTNm}, rule{name: "T-op1", run: ruleTOp}, rule{name: "ACC-parse", run: ruleACCParse}, rule{name: "T-asm", run: ruleTAsm}, rule{name: "S-canon", run: ruleSCanon}, rule{name: "W-enc", run: ruleWEnc})
+	register("C13", "T-push T-nm", nil, rule{name: "P-codec", run: rulePCodec}, rule{name: "T-push", run: ruleTPush}, rule{name: "T-nm", run: ruleTNm}, rule{name: "T-op1", run: ruleTOp}, rule{name: "ACC-parse", run: ruleACCParse}, rule{name: "T-asm", run: ruleTAsm}, rule{name: "S-canon", run: ruleSCanon}, rule{name: "W-enc", run: ruleWEnc}, rule{name: "W-opb", run: ruleWOpBytes})
 	register("C01", "W-tx T-vi ACC", nil, rule{name: "W-tx", run: ruleWTx}, rule{name: "W-rd", run: ruleWRd}, rule{name: "T-vi", run: ruleTVi}, rule{name: "ACC", run: ruleACC})
 	register("C17", "T-fmt S-disp", nil, rule{name: "T-fmt", run: ruleTFmt}, rule{name: "S-disp", run: ruleSDisp})
 	register("C15", "S-chk T-ver", nil, rule{name: "S-chk", run: ruleSChk}, rule{name: "T-ver", run: ruleTVer}, rule{name: "T-tmpl", run: func(c *Ctx) { ruleTTmplOnly(c, map[string]bool{"IsP2PKH": true}) }}, rule{name: "S-carry", run: ruleSCarry}, rule{name: "W-addr", run: ruleWAddr})
@@ -57,21 +57,52 @@ func init() {
 			configureInterpP(c)
 			runP(c, "P-snap", []entrySpec{{"bscript/interpreter", "*thread", "State"}}, 1, 10)
 		}})
-	register("C12", "S-fund G-map O-pure", nil, rule{name: "S-fund", run: ruleSFund}, rule{name: "G-map", run: ruleGMapFromUTXOs}, rule{name: "G-lin", run: ruleGDeficit}, rule{name: "G-sum", run: ruleGSum})
+	register("C12", "S-fund G-map O-pure", nil, rule{name: "S-fund", run: ruleSFund}, rule{name: "G-map", run: ruleGMapFromUTXOs}, rule{name: "G-lin", run: ruleGDeficit}, rule{name: "G-sum", run: ruleGSum},
+		// "stops when covered" is decided by estimateDeficit: the size it measures, the fee formula it prices it
+		// with and the split into standard and data bytes
+		rule{name: "G-size", run: ruleGSize}, rule{name: "G-fee", run: ruleGFee}, rule{name: "P-est", run: rulePEst},
+		rule{name: "T-tmpl", run: func(c *Ctx) { ruleTTmplOnly(c, map[string]bool{"IsData": true, "IsP2PKH": true, "IsP2PKHInscription": true}) }})
 	register("C11", "G-size G-fee G-pred P-est T-tmpl G-sum", nil, rule{name: "G-size", run: ruleGSize}, rule{name: "G-fee", run: ruleGFee}, rule{name: "G-fee", run: ruleGQuote}, rule{name: "G-pred", run: ruleGPred}, rule{name: "P-est", run: rulePEst}, rule{name: "G-clone", run: ruleGClone}, rule{name: "G-sum", run: ruleGSum}, rule{name: "T-tmpl", run: func(c *Ctx) {
 		ruleTTmplOnly(c, map[string]bool{"IsData": true, "IsP2PKH": true, "IsP2PKHInscription": true})
 	}})
-	register("C10", "G-chg S-chg O-pure G-sum G-size T-vi", nil, rule{name: "G-chg", run: ruleGChg}, rule{name: "S-chg", run: ruleSChgWrappers}, rule{name: "G-sum", run: ruleGSum}, rule{name: "G-size", run: ruleGSize}, rule{name: "P-est", run: rulePEst}, rule{name: "T-vi", run: func(c *Ctx) { ruleTViOnly(c, map[string]bool{"Length": true, "UpperLimitInc": true}) }})
-	register("C06", "T-enc G-legacy S-sub S-enc S-false S-nullf", nil, rule{name: "T-enc", run: ruleTEnc}, rule{name: "G-legacy", run: ruleGLegacy}, rule{name: "S-sub", run: ruleSSub}, rule{name: "S-enc", run: ruleSEncOrder}, rule{name: "S-multi", run: ruleSMulti}, rule{name: "S-reset", run: ruleSReset}, rule{name: "G-clone", run: ruleGClone}, rule{name: "S-canon", run: ruleSCanon}, rule{name: "T-der", run: ruleTDer})
+	register("C10", "G-chg S-chg O-pure G-sum G-size T-vi", nil, rule{name: "G-chg", run: ruleGChg}, rule{name: "S-chg", run: ruleSChgWrappers}, rule{name: "G-sum", run: ruleGSum}, rule{name: "G-size", run: ruleGSize}, rule{name: "P-est", run: rulePEst}, rule{name: "T-vi", run: func(c *Ctx) { ruleTViOnly(c, map[string]bool{"Length": true, "UpperLimitInc": true}) }},
+		// what the fee of the change computation is priced with: the floor formula of feesPaid and the split of the
+		// bytes into standard and data by Script.IsData
+		rule{name: "G-fee", run: ruleGFee}, rule{name: "T-tmpl", run: func(c *Ctx) { ruleTTmplOnly(c, map[string]bool{"IsData": true}) }})
+	register("C06", "T-enc G-legacy S-sub S-enc S-false S-nullf", nil, rule{name: "T-enc", run: ruleTEnc}, rule{name: "G-legacy", run: ruleGLegacy}, rule{name: "S-sub", run: ruleSSub}, rule{name: "S-enc", run: ruleSEncOrder}, rule{name: "S-multi", run: ruleSMulti}, rule{name: "S-reset", run: ruleSReset}, rule{name: "G-clone", run: ruleGClone}, rule{name: "S-canon", run: ruleSCanon}, rule{name: "T-der", run: ruleTDer},
+		// the script code a signature is checked against is Unparse(Parse(script)[after the last separator]): the
+		// tokeniser's table and byte accounting, and the bytes an opcode is written back as
+		rule{name: "T-op1", run: ruleTOp}, rule{name: "ACC-parse", run: ruleACCParse}, rule{name: "W-opb", run: ruleWOpBytes})
 	register("C04", "S-flag W-unlock S-fill S-digest S-apply T-shf", nil, rule{name: "S-flag", run: ruleSFlag}, rule{name: "S-digest", run: ruleSDigest}, rule{name: "S-apply", run: ruleSApply}, rule{name: "T-shf", run: ruleTShf}, rule{name: "S-sub", run: ruleSSub}, rule{name: "T-enc", run: ruleTEnc}, rule{name: "G-clone", run: ruleGClone},
 		// "commit to exactly what their hash type says under the digest algorithm in force": the two digest
 		// algorithms themselves (decided as for C02 / C03)
-		rule{name: "W-sig", run: ruleWSig}, rule{name: "W-leg", run: ruleWLeg}, rule{name: "G-eff", run: ruleGEffLegacy})
-	register("C20", "G-idx G-fifo S-fee W-insc O-insc T-rt", nil, rule{name: "G-idx", run: ruleGIdx}, rule{name: "S-fee", run: ruleSFeeAfter}, rule{name: "W-insc", run: ruleWInsc}, rule{name: "O-insc", run: ruleOInsc}, rule{name: "T-rt", run: ruleTRt})
-	register("C02", "W-sig", nil, rule{name: "W-sig", run: ruleWSig}, rule{name: "S-err", run: func(c *Ctx) { ruleSErrPreimage(c, "CalcInputPreimage") }}, rule{name: "O-pure", run: func(c *Ctx) { ruleOPureSighashFor(c, true) }})
+		rule{name: "W-sig", run: ruleWSig}, rule{name: "W-leg", run: ruleWLeg}, rule{name: "G-eff", run: ruleGEffLegacy},
+		// what both sides of "sign, then verify" are built with: the var-int writer of the preimages, and the
+		// tokeniser / writer pair that turns the locking script into the script code
+		rule{name: "T-vi", run: func(c *Ctx) { ruleTViOnly(c, map[string]bool{"Bytes": true}) }},
+		rule{name: "T-op1", run: ruleTOp}, rule{name: "ACC-parse", run: ruleACCParse}, rule{name: "W-opb", run: ruleWOpBytes})
+	register("C20", "G-idx G-fifo S-fee W-insc O-insc T-rt", nil, rule{name: "G-idx", run: ruleGIdx}, rule{name: "S-fee", run: ruleSFeeAfter}, rule{name: "W-insc", run: ruleWInsc}, rule{name: "O-insc", run: ruleOInsc}, rule{name: "T-rt", run: ruleTRt},
+		// what the flows are built with: the fee formula behind Validate / IsFeePaidEnough, the push prefixes the
+		// inscription is written with, and the recogniser that reads it back
+		rule{name: "G-fee", run: ruleGFee}, rule{name: "T-push", run: ruleTPush},
+		rule{name: "T-tmpl", run: func(c *Ctx) { ruleTTmplOnly(c, map[string]bool{"IsP2PKHInscription": true}) }})
+	register("C02", "W-sig", nil, rule{name: "W-sig", run: ruleWSig}, rule{name: "S-err", run: func(c *Ctx) { ruleSErrPreimage(c, "CalcInputPreimage") }}, rule{name: "O-pure", run: func(c *Ctx) { ruleOPureSighashFor(c, true) }},
+		// what the preimage is built with: the var-int writer behind every length prefix, and "an error, not a panic"
+		// for an input that does not exist (the accessors the guards rely on)
+		rule{name: "T-vi", run: func(c *Ctx) { ruleTViOnly(c, map[string]bool{"Bytes": true}) }},
+		rule{name: "P-sig", run: func(c *Ctx) {
+			runP(c, "P-sig", []entrySpec{{"", "*Tx", "CalcInputPreimage"}}, 5, 10)
+		}})
 	register("C03", "W-leg", nil, rule{name: "W-leg", run: ruleWLeg}, rule{name: "G-eff", run: ruleGEffLegacy}, rule{name: "S-dig", run: func(c *Ctx) {
 		if sh := c.P.Func("", "*Tx", "CalcInputSignatureHash"); sh != nil {
 			digestRule(c, sh)
 		}
-	}}, rule{name: "S-err", run: func(c *Ctx) { ruleSErrPreimage(c, "CalcInputPreimageLegacy") }}, rule{name: "O-pure", run: func(c *Ctx) { ruleOPureSighashFor(c, false) }}, rule{name: "G-clone", run: ruleGClone})
+	}}, rule{name: "S-err", run: func(c *Ctx) { ruleSErrPreimage(c, "CalcInputPreimageLegacy") }}, rule{name: "O-pure", run: func(c *Ctx) { ruleOPureSighashFor(c, false) }}, rule{name: "G-clone", run: ruleGClone},
+		// what the legacy preimage is built with: the var-int writer, and "an error, not a panic" for an input that
+		// does not exist (the slices of the working copy rest on S-clonelen and G-eff, as in C07)
+		rule{name: "T-vi", run: func(c *Ctx) { ruleTViOnly(c, map[string]bool{"Bytes": true}) }},
+		rule{name: "S-clonelen", run: ruleSCloneLen},
+		rule{name: "P-sig", run: func(c *Ctx) {
+			runP(c, "P-sig", []entrySpec{{"", "*Tx", "CalcInputPreimageLegacy"}}, 5, 10)
+		}})
 }
